@@ -22,6 +22,8 @@ var (
 	ErrNegativeValue = errors.New("negative coin value")
 	// ErrTooManyDecimals is returned if a value has more than 10 decimal places
 	ErrTooManyDecimals = errors.New("too many decimal places")
+	// ErrInvalidFloat is returned if a float value is not a number or infinite
+	ErrInvalidFloat = errors.New("value is not a finite number")
 	// ErrTooLarge is returned if a value is greater than math.MaxInt64
 	ErrTooLarge = errors.New("value is too large")
 
@@ -66,6 +68,10 @@ func init() {
 type Coin uint64
 
 func ParseZCN(c float64) (Coin, error) {
+	// decimal.NewFromFloat panics on NaN and infinities
+	if math.IsNaN(c) || math.IsInf(c, 0) {
+		return 0, ErrInvalidFloat
+	}
 	d := decimal.NewFromFloat(c)
 	if d.Sign() == -1 {
 		return 0, ErrNegativeValue
